@@ -12,11 +12,6 @@ Theorem C06_tensor_det : tensor_det_stmt1 /\ tensor_det_stmt2 /\ tensor_det_stmt
 Proof. exact (conj tensor_det_ok1 (conj tensor_det_ok2 tensor_det_ok3)). Qed.
 Print Assumptions C06_tensor_det.
 
-(* computeDeterminantSecondDerivative(tensor) is the Jacobian of computeDeterminantDerivative(tensor) *)
-Theorem C06_tensor_det2 : tensor_det2_stmt1 /\ tensor_det2_stmt2 /\ tensor_det2_stmt3.
-Proof. exact (conj tensor_det2_ok1 (conj tensor_det2_ok2 tensor_det2_ok3)). Qed.
-Print Assumptions C06_tensor_det2.
-
 (* t2tost2::dCdF(F) is the Jacobian of the right Cauchy-Green tensor F^T.F *)
 Theorem C06_dCdF : dCdF_stmt1 /\ dCdF_stmt2 /\ dCdF_stmt3.
 Proof. exact (conj dCdF_ok1 (conj dCdF_ok2 dCdF_ok3)). Qed.
